@@ -94,6 +94,14 @@ func defaultServerSettings() serverSettings {
 	}
 }
 
+// Upper bounds of the formatting widths. The formatter writes the indent and the
+// padding in front of an amount as that many blanks on every posting line, so a
+// width has to stay within what a line of a journal can sensibly hold.
+const (
+	maxIndentSize         = 32
+	maxMinAlignmentColumn = 500
+)
+
 func normalizeServerSettings(settings serverSettings) serverSettings {
 	defaults := defaultServerSettings()
 	if settings.Completion.MaxResults <= 0 {
@@ -101,6 +109,15 @@ func normalizeServerSettings(settings serverSettings) serverSettings {
 	}
 	if settings.Formatting.IndentSize <= 0 {
 		settings.Formatting.IndentSize = defaults.Formatting.IndentSize
+	}
+	if settings.Formatting.IndentSize > maxIndentSize {
+		settings.Formatting.IndentSize = maxIndentSize
+	}
+	if settings.Formatting.MinAlignmentColumn < 0 {
+		settings.Formatting.MinAlignmentColumn = defaults.Formatting.MinAlignmentColumn
+	}
+	if settings.Formatting.MinAlignmentColumn > maxMinAlignmentColumn {
+		settings.Formatting.MinAlignmentColumn = maxMinAlignmentColumn
 	}
 	if settings.CLI.Path == "" {
 		settings.CLI.Path = defaults.CLI.Path
